@@ -99,6 +99,9 @@ func main() {
 	add("C06-F20", "open", tmplgen.ScopeImportMap,
 		"script elements of type importmap and speculationrules are parsed as JSON by browsers but lexed as HTML: values inside their strings are HTML-escaped, so a backslash or a line terminator breaks the JSON string",
 		c06.Witness("finding:C06-F20", "index.html", html("<script type=\"importmap\">{\"imports\": {\"a\": \"/x/{{ v0 }}\", \"b\": \"/y/z.js\"}}</script>"), str, s("\\")))
+	add("C06-F21", "open", tmplgen.ScopeTypedMacroTag,
+		"inside a macro whose explicit result type differs from the format of the file, the lexer returns to the file's context after an HTML tag: the rest of a markdown-typed macro body in an HTML file is escaped as HTML and then converted as Markdown (*a* becomes emphasis); the rest of an html-typed macro body in a Markdown file is escaped as Markdown",
+		c06.Witness("finding:C06-F21", "index.html", html("{% macro M(p string) markdown %}<b>x</b> {{ p }}{% end %}<div>{{ M(v0) }}</div>"), str, s("*a* [l](http://evil.example/)")))
 	b, _ := json.MarshalIndent(fs, "", " ")
 	os.WriteFile("props/c06/findings.json", append(b, '\n'), 0o644)
 }
